@@ -1,2 +1,300 @@
+/-
+  C11 helper proofs: `NextTransition` / `PrevTransition` on a well-formed table.
+  * `EquivTransitions` decides `Spec.sameType`;
+  * loop invariants of the two `skip` loops;
+  * the reported index is the first / last real change after / before the argument.
+-/
 import Cctz.Model.Tz
 import Cctz.Spec.TableSem
+import Cctz.Proofs.TbSearch
+import Cctz.Proofs.TbCivilOob
+
+namespace Cctz.Tb
+open Cctz Cctz.Tz Cctz.Spec
+
+theorem equiv_val {z : Zone} {i j : Nat} (hi : i < z.types.size) (hj : j < z.types.size) :
+    ((equivTransitions z i j).val = true ↔ sameType z i j) ∧
+    (equivTransitions z i j).flags = Flags.none := by
+  unfold equivTransitions sameType
+  by_cases h : i = j
+  · simp [h]
+  · simp only [if_neg h, getType_eq z i hi, getType_eq z j hj, Ck.bind_val, Ck.pure_val,
+      Ck.bind_flags, Ck.pure_flags, Flags.none_or, Bool.and_eq_true, beq_iff_eq]
+    simp [h, and_assoc]
+
+theorem prevType_lt {z : Zone} (wf : TableWF z) (i : Nat) (hi : i < z.transitions.size) :
+    prevType z i < z.types.size := by
+  unfold prevType
+  split
+  · exact wf.defaultIdx
+  · exact wf.typeIdx (i - 1) (by omega)
+
+theorem prevTypeIndex_eq (z : Zone) (b i : Nat) (hi : i < z.transitions.size) :
+    prevTypeIndex z b i = pure (prevType z i) := by
+  unfold prevTypeIndex prevType
+  by_cases h : i = 0
+  · simp [h]
+  · simp only [if_neg h, getTrans_eq z (i - 1) (by omega)]
+    rfl
+
+/-- entry `i` switches to a type equivalent to the one in force before it -/
+def NoOp (z : Zone) (i : Nat) : Prop := sameType z (prevType z i) (trn z i).typeIndex
+
+theorem next_skip_spec {z : Zone} (wf : TableWF z) (b : Nat) (fuel : Nat) :
+    ∀ i, i ≤ z.transitions.size → z.transitions.size - i < fuel →
+      i ≤ (nextTransition.skip z b i fuel).val ∧
+      (nextTransition.skip z b i fuel).val ≤ z.transitions.size ∧
+      (∀ j, i ≤ j → j < (nextTransition.skip z b i fuel).val → NoOp z j) ∧
+      ((nextTransition.skip z b i fuel).val < z.transitions.size →
+        ¬ NoOp z (nextTransition.skip z b i fuel).val) ∧
+      (nextTransition.skip z b i fuel).flags = Flags.none := by
+  induction fuel with
+  | zero => intro i _ hf; omega
+  | succ f ih =>
+    intro i hi hf
+    unfold nextTransition.skip
+    by_cases h : i = z.transitions.size
+    · simp only [if_pos h, Ck.pure_val, Ck.pure_flags]
+      refine ⟨Nat.le_refl _, hi, fun j h1 h2 => by omega, fun h' => by omega, trivial⟩
+    · have hi' : i < z.transitions.size := by omega
+      have e := equiv_val (z := z) (prevType_lt wf i hi') (wf.typeIdx i hi')
+      simp only [if_neg h, prevTypeIndex_eq z b i hi', getTrans_eq z i hi', Ck.bind_val,
+        Ck.pure_val, Ck.bind_flags, Ck.pure_flags, Flags.none_or, e.2]
+      by_cases hs : (equivTransitions z (prevType z i) (trn z i).typeIndex).val = true
+      · have hno : NoOp z i := e.1.1 hs
+        simp only [hs, Bool.not_true, Bool.false_eq_true, if_false]
+        obtain ⟨a1, a2, a3, a4, a5⟩ := ih (i + 1) (by omega) (by omega)
+        refine ⟨by omega, a2, ?_, a4, a5⟩
+        intro j h1 h2
+        by_cases hj : j = i
+        · subst hj; exact hno
+        · exact a3 j (by omega) h2
+      · have hno : ¬ NoOp z i := fun hn => hs (e.1.2 hn)
+        simp only [hs, Bool.not_false, if_true, Ck.pure_val, Ck.pure_flags]
+        exact ⟨Nat.le_refl _, hi, fun j h1 h2 => by omega, fun _ => hno, trivial⟩
+
+theorem prev_skip_spec {z : Zone} (wf : TableWF z) (b : Nat) (fuel : Nat) :
+    ∀ i, b ≤ i → i ≤ z.transitions.size → i - b < fuel →
+      b ≤ (prevTransition.skip z b i fuel).val ∧
+      (prevTransition.skip z b i fuel).val ≤ i ∧
+      (∀ j, (prevTransition.skip z b i fuel).val ≤ j → j < i → NoOp z j) ∧
+      (b < (prevTransition.skip z b i fuel).val →
+        ¬ NoOp z ((prevTransition.skip z b i fuel).val - 1)) ∧
+      (prevTransition.skip z b i fuel).flags = Flags.none := by
+  induction fuel with
+  | zero => intro i _ _ hf; omega
+  | succ f ih =>
+    intro i hb hi hf
+    unfold prevTransition.skip
+    by_cases h : i = b
+    · simp only [if_pos h, Ck.pure_val, Ck.pure_flags]
+      refine ⟨by omega, by omega, fun j h1 h2 => by omega, fun h' => by omega, trivial⟩
+    · have hi' : i - 1 < z.transitions.size := by omega
+      have e := equiv_val (z := z) (prevType_lt wf (i - 1) hi') (wf.typeIdx (i - 1) hi')
+      have hp : (if i - 1 = 0 then pure z.defaultType
+                 else do let t2 ← getTrans z (i - 2); pure t2.typeIndex : Ck Nat)
+          = pure (prevType z (i - 1)) := by
+        unfold prevType
+        by_cases h0 : i - 1 = 0
+        · simp [h0]
+        · simp only [if_neg h0, getTrans_eq z (i - 2) (by omega)]
+          rfl
+      simp only [if_neg h, hp, getTrans_eq z (i - 1) hi', Ck.bind_val,
+        Ck.pure_val, Ck.bind_flags, Ck.pure_flags, Flags.none_or, e.2]
+      by_cases hs : (equivTransitions z (prevType z (i - 1)) (trn z (i - 1)).typeIndex).val = true
+      · have hno : NoOp z (i - 1) := e.1.1 hs
+        simp only [hs, Bool.not_true, Bool.false_eq_true, if_false]
+        obtain ⟨a1, a2, a3, a4, a5⟩ := ih (i - 1) (by omega) (by omega) (by omega)
+        refine ⟨a1, by omega, ?_, a4, a5⟩
+        intro j h1 h2
+        by_cases hj : j = i - 1
+        · subst hj; exact hno
+        · exact a3 j h1 (by omega)
+      · have hno : ¬ NoOp z (i - 1) := fun hn => hs (e.1.2 hn)
+        simp only [hs, Bool.not_false, if_true, Ck.pure_val, Ck.pure_flags]
+        exact ⟨hb, Nat.le_refl _, fun j h1 h2 => by omega, fun _ => hno, trivial⟩
+
+/-! ## the index the searches start from -/
+
+/-- 1 when the table starts with the big-bang sentinel, else 0 -/
+def beginIdx (z : Zone) : Nat := if (trn z 0).unixTime ≤ Gen.bigBang then 1 else 0
+
+theorem beginIdx_le {z : Zone} (wf : TableWF z) : beginIdx z ≤ z.transitions.size := by
+  have := wf.nonempty
+  unfold beginIdx; split <;> omega
+
+theorem bigBang_eq : Gen.bigBang = -576460752303423488 := rfl
+
+theorem realChange_iff {z : Zone} (j : Nat) :
+    RealChange z j ↔ j < z.transitions.size ∧ beginIdx z ≤ j ∧ ¬ NoOp z j := by
+  unfold RealChange NoOp beginIdx
+  rw [bigBang_eq]
+  constructor
+  · rintro ⟨h1, h2, h3⟩
+    refine ⟨h1, ?_, h3⟩
+    split
+    · rename_i hb
+      rcases Nat.eq_zero_or_pos j with h0 | h0
+      · exact absurd ⟨h0, hb⟩ h2
+      · exact h0
+    · exact Nat.zero_le _
+  · rintro ⟨h1, h2, h3⟩
+    refine ⟨h1, ?_, h3⟩
+    rintro ⟨h0, hb⟩
+    rw [if_pos hb] at h2
+    omega
+
+/-! ## NextTransition -/
+
+/-- the table index `NextTransition` stops at (`size` = nothing to report) -/
+def nextIdx (z : Zone) (t : Int) : Nat :=
+  (nextTransition.skip z (beginIdx z) (upperBoundTimeFrom z.transitions (beginIdx z) t)
+    (z.transitions.size + 1)).val
+
+theorem nextIdx_spec {z : Zone} (wf : TableWF z) (t : Int) :
+    nextIdx z t ≤ z.transitions.size ∧
+    (∀ j, RealChange z j → t < (trn z j).unixTime → nextIdx z t ≤ j) ∧
+    (nextIdx z t < z.transitions.size →
+      RealChange z (nextIdx z t) ∧ t < (trn z (nextIdx z t)).unixTime) := by
+  have sp := upperBoundTimeFrom_spec wf (beginIdx z) t (beginIdx_le wf)
+  obtain ⟨s1, s2, s3, s4⟩ := sp
+  obtain ⟨a1, a2, a3, a4, _⟩ := next_skip_spec wf (beginIdx z) (z.transitions.size + 1)
+    (upperBoundTimeFrom z.transitions (beginIdx z) t) s2 (by omega)
+  refine ⟨a2, ?_, ?_⟩
+  · intro j hj ht
+    rw [realChange_iff] at hj
+    obtain ⟨h1, h2, h3⟩ := hj
+    rcases Nat.lt_or_ge j (upperBoundTimeFrom z.transitions (beginIdx z) t) with hlt | hge
+    · have := s3 j h2 hlt; omega
+    · rcases Nat.lt_or_ge j (nextIdx z t) with hlt2 | hge2
+      · exact absurd (a3 j hge hlt2) h3
+      · exact hge2
+  · intro hk
+    rw [realChange_iff]
+    exact ⟨⟨hk, Nat.le_trans s1 a1, a4 hk⟩, s4 _ a1 hk⟩
+
+theorem pure_bind_ck (a : α) (f : α → Ck β) : ((pure a : Ck α) >>= f) = f a := by
+  show Ck.mk (f a).val (Flags.none.or (f a).flags) = f a
+  rw [Flags.none_or]
+
+/-- `nextTransition` after the sentinel test -/
+def nextBody (z : Zone) (b : Nat) (t : Int) : Ck (Option (Fields × Fields)) := do
+  let i ← nextTransition.skip z b (upperBoundTimeFrom z.transitions b t) (z.transitions.size + 1)
+  if i = z.transitions.size then return none
+  let tr ← getTrans z i
+  let from' ← Civil.civilAdd .second tr.prevCivilSec 1
+  return some (from', tr.civilSec)
+
+theorem nextTransition_eq (z : Zone) (t : Int) :
+    nextTransition z t = (if z.transitions.isEmpty then pure none else
+      getTrans z 0 >>= fun first => nextBody z (if first.unixTime ≤ Gen.bigBang then 1 else 0) t) := by
+  rfl
+
+theorem isEmpty_false {z : Zone} (wf : TableWF z) : z.transitions.isEmpty = false := by
+  have hn := wf.nonempty
+  simp only [Array.isEmpty_eq_false_iff]
+  intro h; rw [h] at hn; exact absurd hn (by decide)
+
+theorem nextTransition_char {z : Zone} (wf : TableWF z) (t : Int) :
+    (nextTransition z t).val =
+      (if nextIdx z t = z.transitions.size then none else some (reportOf z (nextIdx z t))) ∧
+    (nextTransition z t).flags.oob = false := by
+  have hn := wf.nonempty
+  have sp := upperBoundTimeFrom_spec wf (beginIdx z) t (beginIdx_le wf)
+  have s2 : upperBoundTimeFrom z.transitions (beginIdx z) t ≤ z.transitions.size := sp.2.1
+  obtain ⟨_, a2, _, _, a5⟩ := next_skip_spec wf (beginIdx z) (z.transitions.size + 1)
+    (upperBoundTimeFrom z.transitions (beginIdx z) t) s2 (by omega)
+  rw [nextTransition_eq, isEmpty_false wf, getTrans_eq z 0 hn, pure_bind_ck]
+  simp only [Bool.false_eq_true, if_false]
+  show (nextBody z (beginIdx z) t).val = _ ∧ (nextBody z (beginIdx z) t).flags.oob = false
+  unfold nextBody
+  simp only [Ck.bind_val, Ck.bind_flags, a5, Flags.none_or]
+  have e2 : (nextTransition.skip z (beginIdx z) (upperBoundTimeFrom z.transitions (beginIdx z) t)
+    (z.transitions.size + 1)).val = nextIdx z t := rfl
+  simp only [e2]
+  by_cases hk : nextIdx z t = z.transitions.size
+  · simp only [hk, if_true]
+    exact ⟨rfl, rfl⟩
+  · have hk' : nextIdx z t < z.transitions.size := by
+      have : nextIdx z t ≤ z.transitions.size := a2
+      omega
+    simp only [hk, if_false, getTrans_eq z _ hk', Ck.bind_val, Ck.pure_val, Ck.bind_flags,
+      Ck.pure_flags, Flags.none_or, Flags.or_none]
+    exact ⟨rfl, civilAdd_second_noOob _ _⟩
+
+/-! ## PrevTransition -/
+
+/-- one past the table index `PrevTransition` reports (`beginIdx` = nothing to report) -/
+def prevIdx (z : Zone) (t : Int) : Nat :=
+  (prevTransition.skip z (beginIdx z) (lowerBoundTimeFrom z.transitions (beginIdx z) t)
+    (z.transitions.size + 1)).val
+
+theorem prevIdx_spec {z : Zone} (wf : TableWF z) (t : Int) :
+    beginIdx z ≤ prevIdx z t ∧ prevIdx z t ≤ z.transitions.size ∧
+    (∀ j, RealChange z j → (trn z j).unixTime < t → j < prevIdx z t) ∧
+    (beginIdx z < prevIdx z t →
+      RealChange z (prevIdx z t - 1) ∧ (trn z (prevIdx z t - 1)).unixTime < t) := by
+  have sp := lowerBoundTimeFrom_spec wf (beginIdx z) t (beginIdx_le wf)
+  obtain ⟨s1, s2, s3, s4⟩ := sp
+  obtain ⟨a1, a2, a3, a4, _⟩ := prev_skip_spec wf (beginIdx z) (z.transitions.size + 1)
+    (lowerBoundTimeFrom z.transitions (beginIdx z) t) s1 s2 (by omega)
+  refine ⟨a1, Nat.le_trans a2 s2, ?_, ?_⟩
+  · intro j hj ht
+    rw [realChange_iff] at hj
+    obtain ⟨h1, h2, h3⟩ := hj
+    rcases Nat.lt_or_ge j (lowerBoundTimeFrom z.transitions (beginIdx z) t) with hlt | hge
+    · rcases Nat.lt_or_ge j (prevIdx z t) with hlt2 | hge2
+      · exact hlt2
+      · exact absurd (a3 j hge2 hlt) h3
+    · have := s4 j hge h1; omega
+  · intro hk
+    have hk2 : prevIdx z t ≤ lowerBoundTimeFrom z.transitions (beginIdx z) t := a2
+    have h1 : prevIdx z t - 1 < z.transitions.size := by omega
+    have h2 : beginIdx z ≤ prevIdx z t - 1 := by omega
+    have h3 : prevIdx z t - 1 < lowerBoundTimeFrom z.transitions (beginIdx z) t := by omega
+    rw [realChange_iff]
+    exact ⟨⟨h1, h2, a4 hk⟩, s3 _ h2 h3⟩
+
+/-- `prevTransition` after the sentinel test -/
+def prevBody (z : Zone) (b : Nat) (t : Int) : Ck (Option (Fields × Fields)) := do
+  let i ← prevTransition.skip z b (lowerBoundTimeFrom z.transitions b t) (z.transitions.size + 1)
+  if i = b then return none
+  let tr ← getTrans z (i - 1)
+  let from' ← Civil.civilAdd .second tr.prevCivilSec 1
+  return some (from', tr.civilSec)
+
+theorem prevTransition_eq (z : Zone) (t : Int) :
+    prevTransition z t = (if z.transitions.isEmpty then pure none else
+      getTrans z 0 >>= fun first => prevBody z (if first.unixTime ≤ Gen.bigBang then 1 else 0) t) := by
+  rfl
+
+theorem prevTransition_char {z : Zone} (wf : TableWF z) (t : Int) :
+    (prevTransition z t).val =
+      (if prevIdx z t = beginIdx z then none else some (reportOf z (prevIdx z t - 1))) ∧
+    (prevTransition z t).flags.oob = false := by
+  have hn := wf.nonempty
+  have sp := lowerBoundTimeFrom_spec wf (beginIdx z) t (beginIdx_le wf)
+  have s1 : beginIdx z ≤ lowerBoundTimeFrom z.transitions (beginIdx z) t := sp.1
+  have s2 : lowerBoundTimeFrom z.transitions (beginIdx z) t ≤ z.transitions.size := sp.2.1
+  obtain ⟨a1, a2, _, _, a5⟩ := prev_skip_spec wf (beginIdx z) (z.transitions.size + 1)
+    (lowerBoundTimeFrom z.transitions (beginIdx z) t) s1 s2 (by omega)
+  rw [prevTransition_eq, isEmpty_false wf, getTrans_eq z 0 hn, pure_bind_ck]
+  simp only [Bool.false_eq_true, if_false]
+  show (prevBody z (beginIdx z) t).val = _ ∧ (prevBody z (beginIdx z) t).flags.oob = false
+  unfold prevBody
+  simp only [Ck.bind_val, Ck.bind_flags, a5, Flags.none_or]
+  have e2 : (prevTransition.skip z (beginIdx z) (lowerBoundTimeFrom z.transitions (beginIdx z) t)
+    (z.transitions.size + 1)).val = prevIdx z t := rfl
+  simp only [e2]
+  by_cases hk : prevIdx z t = beginIdx z
+  · simp only [hk, if_true]
+    exact ⟨rfl, rfl⟩
+  · have hk' : prevIdx z t - 1 < z.transitions.size := by
+      have h1 : prevIdx z t ≤ lowerBoundTimeFrom z.transitions (beginIdx z) t := a2
+      have h3 : beginIdx z ≤ prevIdx z t := a1
+      omega
+    simp only [hk, if_false, getTrans_eq z _ hk', Ck.bind_val, Ck.pure_val, Ck.bind_flags,
+      Ck.pure_flags, Flags.none_or, Flags.or_none]
+    exact ⟨rfl, civilAdd_second_noOob _ _⟩
+
+end Cctz.Tb
